@@ -44,6 +44,7 @@ structure FieldK where
   asBytes : Prog
   square : List Nat → List Nat
   square2 : List Nat → List Nat
+  powBody : List Nat → List Nat   -- one iteration of the `pow2k` loop
   weight : Nat → Nat   -- bit position of limb i
 
 def f51 : FieldK :=
@@ -53,6 +54,7 @@ def f51 : FieldK :=
     fromBytes := Dalek.Gen.Field51.from_bytes, asBytes := Dalek.Gen.Field51.as_bytes,
     square := Dalek.Gen.Field51.pow2k_body.evalW,
     square2 := fun a => Dalek.Gen.Field51.square2_tail.evalW (Dalek.Gen.Field51.pow2k_body.evalW a),
+    powBody := Dalek.Gen.Field51.pow2k_body.evalW,
     weight := fun i => 51 * i }
 
 def f26 : FieldK :=
@@ -62,6 +64,28 @@ def f26 : FieldK :=
     fromBytes := Dalek.Gen.Field26.from_bytes, asBytes := Dalek.Gen.Field26.as_bytes,
     square := Dalek.Gen.Field26.square.evalW,
     square2 := Dalek.Gen.Field26.square2.evalW,
+    powBody := Dalek.Gen.Field26.pow2k_body.evalW,
+    weight := fun i => (51 * i + 1) / 2 }
+
+/-- the fiat u64 wrapper backend: every method is the TRANSLATED wrapper with the fiat-crypto functions inlined
+(`Dalek.Gen.FiatField51`); served as `felF51.*` by fiat drivers only, compared limb for limb -/
+def fF51 : FieldK :=
+  { n := 5, lim := 2 ^ 64,
+    add := Dalek.Gen.FiatField51.add, sub := Dalek.Gen.FiatField51.sub, mul := Dalek.Gen.FiatField51.mul,
+    neg := Dalek.Gen.FiatField51.neg, reduce := Dalek.Gen.FiatField51.reduce,
+    fromBytes := Dalek.Gen.FiatField51.from_bytes, asBytes := Dalek.Gen.FiatField51.as_bytes,
+    square := Dalek.Gen.FiatField51.square.evalW, square2 := Dalek.Gen.FiatField51.square2.evalW,
+    powBody := Dalek.Gen.FiatField51.pow2k_body.evalW,
+    weight := fun i => 51 * i }
+
+/-- the fiat u32 wrapper backend (`Dalek.Gen.FiatField26`; it has no `reduce`) -/
+def fF26 : FieldK :=
+  { n := 10, lim := 2 ^ 32,
+    add := Dalek.Gen.FiatField26.add, sub := Dalek.Gen.FiatField26.sub, mul := Dalek.Gen.FiatField26.mul,
+    neg := Dalek.Gen.FiatField26.neg, reduce := Dalek.Gen.FiatField26.neg,
+    fromBytes := Dalek.Gen.FiatField26.from_bytes, asBytes := Dalek.Gen.FiatField26.as_bytes,
+    square := Dalek.Gen.FiatField26.square.evalW, square2 := Dalek.Gen.FiatField26.square2.evalW,
+    powBody := Dalek.Gen.FiatField26.pow2k_body.evalW,
     weight := fun i => (51 * i + 1) / 2 }
 
 def limbsArg (k : FieldK) (s : String) : Option (List Nat) :=
@@ -89,7 +113,7 @@ def fieldOp (k : FieldK) (valueLevel : Bool) (op : String) (args : List String) 
   | "square2", [a] => match limbsArg k a with
       | some x => out (k.square2 x) (fmul 2 (fsq (valueOf k x))) | _ => bad
   | "pow2k", [a, n] => match limbsArg k a, parseNat n with
-      | some x, some j => if 1 ≤ j ∧ j ≤ 300 then out (iter k.square j x) (iterN fsq j (valueOf k x % P)) else bad
+      | some x, some j => if 1 ≤ j ∧ j ≤ 300 then out (iter k.powBody j x) (iterN fsq j (valueOf k x % P)) else bad
       | _, _ => bad
   | "from_bytes", [b] => match bytesArg 32 b with
       | some x => out (k.fromBytes.evalW x) (feFromBytes (x.map UInt8.ofNat)) | _ => bad
@@ -188,6 +212,8 @@ def rawOp (op : String) (args : List String) : Option String :=
   | ["fel26", o] => fieldOp f26 false o args
   | ["felv51", o] => fieldOp f51 true o args
   | ["felv26", o] => fieldOp f26 true o args
+  | ["felF51", o] => fieldOp fF51 false o args
+  | ["felF26", o] => fieldOp fF26 false o args
   | ["scl52", o] => scalarOp s52 o args
   | ["scl29", o] => scalarOp s29 o args
   | _ => none
